@@ -225,4 +225,7 @@ func init() {
 	// ---------------- fresh decode targets
 	mut("C17", "one decode target is reused for a batch of observed changes", "x/go/gorp/observe.go",
 		"		for _, kvChange := range changes {\n			var op change.Change[K, E]\n", "		var op change.Change[K, E]\n		for _, kvChange := range changes {\n", "C17.R8.fresh")
+
+	mut("C17", "the scan prefix is appended to the table's shared key prefix", "x/go/gorp/reader.go",
+		"	prefixedKey := slices.Concat(r.keyCodec.prefix, opts.prefix)", "	prefixedKey := append(r.keyCodec.prefix, opts.prefix...)\n	_ = slices.Clip[[]byte]", "C17.R9.append")
 }
